@@ -547,12 +547,55 @@ func mkTarget(allow, deny, authScheme string) *route.Target {
 	return route.VerifAddTarget("svc", upstreamURL, opts)
 }
 
+var redirectTemplates = []string{"http://redir.example/new$path", "https://redir.example/fixed", "http://redir.example$path", "http://redir.example/", "https://redir.example/a/b/$path?x=1"}
+
+// mkTable builds a one-route table through the real Route.addTarget; redirect != 0 makes it a
+// redirect route (opts redirect=<code>, the target URL is the Location template).
+func mkTable(r *rand.Rand, allow, deny, authScheme string, redirect int) route.Table {
+	opts := map[string]string{}
+	if allow != "" {
+		opts["allow"] = allow
+	}
+	if deny != "" {
+		opts["deny"] = deny
+	}
+	if authScheme != "" {
+		opts["auth"] = authScheme
+	}
+	u := upstreamURL
+	if redirect != 0 {
+		opts["redirect"] = strconv.Itoa(redirect)
+		var err error
+		if u, err = url.Parse(redirectTemplates[r.Intn(len(redirectTemplates))]); err != nil {
+			panic(err)
+		}
+	}
+	tbl, _ := route.VerifTable("svc", u, opts)
+	if tbl == nil {
+		panic("VerifTable: addTarget appended no target")
+	}
+	return tbl
+}
+
+var globCache = route.NewGlobCache(16)
+
+// tableLookup is what main.go's lookup does: the real Table.Lookup, which hands out a
+// per-request copy of a redirect target.
+func tableLookup(tbl route.Table) func(*http.Request) *route.Target {
+	return func(req *http.Request) *route.Target {
+		return tbl.Lookup(req, "", route.Picker["rnd"], route.Matcher["prefix"], globCache, false)
+	}
+}
+
+var redirectCodes = []int{301, 302, 307, 308}
+
 // sharedProxy is ONE HTTPProxy (one loaded auth scheme set, one target) serving a whole
 // request history; hits counts the upstream round trips so far.
 type sharedProxy struct {
-	p      *proxy.HTTPProxy
-	hits   int
-	target *route.Target
+	p        *proxy.HTTPProxy
+	hits     int
+	tbl      route.Table
+	redirect int
 }
 
 type rtFunc func(*http.Request) (*http.Response, error)
@@ -859,6 +902,7 @@ func main() {
 		cred     credGen
 		remote   string
 		xff      []string
+		redirect int          // 0 = the route forwards, else the redirect code of the route
 		shared   *sharedProxy // non-nil: a step of a request history on one proxy / scheme set
 		note     string
 	}
@@ -911,7 +955,14 @@ func main() {
 			}
 			semItems = append(semItems, vh.Pair(vh.HxS(k), v))
 		}
-		t := mkTarget(in.g.allow, in.g.deny, in.authName)
+		redirect := in.redirect
+		if in.shared != nil {
+			redirect = in.shared.redirect
+		}
+		var lookup func(*http.Request) *route.Target
+		if in.shared == nil {
+			lookup = tableLookup(mkTable(r, in.g.allow, in.g.deny, in.authName, redirect))
+		}
 		hits := 0
 		p := &proxy.HTTPProxy{
 			Transport: rtFunc(func(req *http.Request) (*http.Response, error) {
@@ -919,9 +970,9 @@ func main() {
 				return &http.Response{StatusCode: 200, Proto: "HTTP/1.1", ProtoMajor: 1, ProtoMinor: 1, Header: http.Header{},
 					Body: io.NopCloser(strings.NewReader("ok")), Request: req}, nil
 			}),
-			Lookup: func(*http.Request) *route.Target {
+			Lookup: func(req *http.Request) *route.Target {
 				if in.present {
-					return t
+					return lookup(req)
 				}
 				return nil
 			},
@@ -929,9 +980,8 @@ func main() {
 		}
 		before := 0
 		if in.shared != nil {
-			p, t, before = in.shared.p, in.shared.target, in.shared.hits
+			p, before = in.shared.p, in.shared.hits
 		}
-		_ = t
 		req := httptest.NewRequest("GET", "http://svc.example/", nil)
 		req.RemoteAddr = in.remote
 		if len(in.xff) > 0 {
@@ -953,9 +1003,13 @@ func main() {
 		for i, v := range in.xff {
 			xs[i] = vh.HxS(v)
 		}
-		run.Add("http/"+class, vh.App("CHttp", coqEnv(in.g.allow, in.g.deny, tb, &ref), vh.Bool(in.present), vh.HxS(in.authName), coqSchemes(in.cred),
-			vh.HxS(in.remote), split, vh.List(xs), vh.List(semItems), vh.Bool(refAdmit), vh.N(rec.Code), vh.N(hits)),
-			map[string]interface{}{"allow": in.g.allow, "deny": in.g.deny, "auth": in.authName, "cred": in.cred.note, "remote": in.remote, "xff": in.xff,
+		loc := rec.Header().Get("Location")
+		if redirect != 0 {
+			class += "+redirect"
+		}
+		run.Add("http/"+class, vh.App("CHttp", coqEnv(in.g.allow, in.g.deny, tb, &ref), vh.Bool(in.present), vh.N(redirect), vh.HxS(in.authName), coqSchemes(in.cred),
+			vh.HxS(in.remote), split, vh.List(xs), vh.List(semItems), vh.Bool(refAdmit), vh.N(rec.Code), vh.N(hits), vh.Bool(loc != "")),
+			map[string]interface{}{"redirect": redirect, "location": loc, "allow": in.g.allow, "deny": in.g.deny, "auth": in.authName, "cred": in.cred.note, "remote": in.remote, "xff": in.xff,
 				"status": rec.Code, "upstream_hits": hits, "ref_admit": refAdmit, "history": in.note})
 	}
 	genXFF := func(cands []netip.Addr, peerText string) []string {
@@ -1009,7 +1063,11 @@ func main() {
 			class += "+hostname-peer"
 		}
 		authName := authNames[r.Intn(len(authNames))]
-		addHTTP(class, httpIn{g: g, present: r.Intn(40) != 0, authName: authName, cred: genCred(), remote: remote, xff: genXFF(cands, peerText)})
+		redirect := 0
+		if r.Intn(5) < 2 {
+			redirect = redirectCodes[r.Intn(len(redirectCodes))]
+		}
+		addHTTP(class, httpIn{g: g, present: r.Intn(40) != 0, authName: authName, cred: genCred(), remote: remote, xff: genXFF(cands, peerText), redirect: redirect})
 	}
 	// directed witnesses of the recorded findings and of each gate branch
 	okCred := credGen{header: basicHeader(usersA[0].name, usersA[0].pw), note: "right for alice", right: map[string]bool{"mybasic": true, "other": false}}
@@ -1039,6 +1097,8 @@ func main() {
 		}
 		d.present = true
 		addHTTP("directed", d)
+		d.redirect = redirectCodes[r.Intn(len(redirectCodes))] // the same request on a redirect route
+		addHTTP("directed", d)
 	}
 
 	// ---------------- 3. the TCP proxies ----------------
@@ -1057,6 +1117,7 @@ func main() {
 			return (&tcp.DynamicProxy{DialTimeout: 5 * time.Second, Lookup: l}).ServeTCP(c)
 		}, nil},
 	}
+	var tcpShared []*route.Target
 	addTCP := func(class string, g ruleGen, present bool, remote net.Addr, canon *netip.Addr) {
 		if !ascii(g.allow, g.deny) {
 			run.Exclude("non-ASCII rule text")
@@ -1076,6 +1137,9 @@ func main() {
 		env := coqEnv(g.allow, g.deny, tb, &ref)
 		for k, px := range proxies {
 			t := mkTarget(g.allow, g.deny, "")
+			if tcpShared != nil { // a step of a connection history: one long-lived target per proxy
+				t = tcpShared[k]
+			}
 			looked := 0
 			lookup := func(string) *route.Target {
 				looked++
@@ -1171,14 +1235,18 @@ func main() {
 		if err != nil {
 			panic(err)
 		}
-		sp := &sharedProxy{target: mkTarget("", "", "mybasic")}
+		sp := &sharedProxy{}
+		if h%3 == 2 {
+			sp.redirect = redirectCodes[r.Intn(len(redirectCodes))]
+		}
+		sp.tbl = mkTable(r, "", "", "mybasic", sp.redirect)
 		sp.p = &proxy.HTTPProxy{
 			Transport: rtFunc(func(req *http.Request) (*http.Response, error) {
 				sp.hits++
 				return &http.Response{StatusCode: 200, Proto: "HTTP/1.1", ProtoMajor: 1, ProtoMinor: 1, Header: http.Header{},
 					Body: io.NopCloser(strings.NewReader("ok")), Request: req}, nil
 			}),
-			Lookup:      func(*http.Request) *route.Target { return sp.target },
+			Lookup:      tableLookup(sp.tbl),
 			AuthSchemes: hs,
 		}
 		cur := us // htpasswd content in force
@@ -1239,6 +1307,114 @@ func main() {
 			for i := 0; i <= len(cat); i++ {
 				pair("re-split of the old pair after rewrite", cat[:i], cat[i:])
 			}
+		}
+	}
+
+	// ---------------- 5. access HISTORIES on one long-lived target ----------------
+	// The access verdict is a function of (rules, request): the k-th request of a history must get
+	// the verdict it would get alone (C12_access_history_independent).  2-8 requests share one
+	// RemoteAddr host with X-Forwarded-For chains that flip the verdict (allowed then denied, denied
+	// then allowed, the same again), other peers repeat the same chains; TCP: peers reconnecting to
+	// one target per proxy.  Every step is an ordinary CHttp / CTcp case.
+	wellFormed := func() ruleGen {
+		for {
+			g := genRule(r)
+			if g.class == "allow" || g.class == "deny" {
+				return g
+			}
+		}
+	}
+	for h := 0; h < run.Scale(60, 500); h++ {
+		g := wellFormed()
+		if h%10 == 9 {
+			g = genRule(r) // any text, malformed ones included
+		}
+		ref := refParse(g.allow, g.deny)
+		cands := candidates(r, &ref)
+		var in, out []netip.Addr
+		for _, a := range cands {
+			if ref.admits(a) {
+				in = append(in, a)
+			} else {
+				out = append(out, a)
+			}
+		}
+		sp := &sharedProxy{}
+		if h%3 == 1 {
+			sp.redirect = redirectCodes[r.Intn(len(redirectCodes))]
+		}
+		sp.tbl = mkTable(r, g.allow, g.deny, "", sp.redirect)
+		sp.p = &proxy.HTTPProxy{
+			Transport: rtFunc(func(req *http.Request) (*http.Response, error) {
+				sp.hits++
+				return &http.Response{StatusCode: 200, Proto: "HTTP/1.1", ProtoMajor: 1, ProtoMinor: 1, Header: http.Header{},
+					Body: io.NopCloser(strings.NewReader("ok")), Request: req}, nil
+			}),
+			Lookup:      tableLookup(sp.tbl),
+			AuthSchemes: schemes,
+		}
+		chain := func(dirty bool) []string {
+			var es []string
+			for i := r.Intn(3); i > 0; i-- {
+				if len(in) > 0 {
+					es = append(es, addrText(r, pick(r, in)))
+				}
+			}
+			if dirty && len(out) > 0 {
+				es = append(es, addrText(r, pick(r, out)))
+				for i := r.Intn(2); i > 0 && len(in) > 0; i-- {
+					es = append(es, addrText(r, pick(r, in)))
+				}
+			}
+			if len(es) == 0 {
+				return nil
+			}
+			if len(es) > 1 && r.Intn(4) == 0 { // two header lines
+				return []string{strings.Join(es[:1], ", "), strings.Join(es[1:], ", ")}
+			}
+			return []string{strings.Join(es, ", ")}
+		}
+		peers := []netip.Addr{pick(r, cands), pick(r, cands)}
+		if len(in) > 0 {
+			peers[0] = pick(r, in) // an admitted front proxy: the XFF chain decides
+		}
+		texts := []string{addrText(r, peers[0]), addrText(r, peers[1])}
+		n := 2 + r.Intn(7)
+		start := r.Intn(2) == 0
+		var last []string
+		for k := 0; k < n; k++ {
+			pi := 0
+			if k >= 2 && r.Intn(4) == 0 {
+				pi = 1 // another peer, same chain as the previous request
+			}
+			var xff []string
+			switch {
+			case pi == 1 || (k > 0 && r.Intn(5) == 0):
+				xff = last // the same again
+			default:
+				xff = chain((k%2 == 0) == start)
+			}
+			last = xff
+			port := "4711"
+			if r.Intn(2) == 0 {
+				port = strconv.Itoa(1024 + r.Intn(60000))
+			}
+			addHTTP("access-history", httpIn{g: g, present: true, cred: noCred, remote: net.JoinHostPort(texts[pi], port), xff: xff, shared: sp,
+				note: fmt.Sprintf("access history %d step %d/%d peer %d", h, k, n, pi)})
+		}
+		// TCP: the same peers reconnecting to one target per proxy, verdicts alternating where possible
+		if h%3 == 0 {
+			tcpShared = []*route.Target{mkTarget(g.allow, g.deny, ""), mkTarget(g.allow, g.deny, ""), mkTarget(g.allow, g.deny, "")}
+			seq := []netip.Addr{peers[0], peers[1], peers[0]}
+			if len(in) > 0 && len(out) > 0 {
+				a, b := pick(r, in), pick(r, out)
+				seq = []netip.Addr{a, b, a, b, b, a}[:2+r.Intn(5)]
+			}
+			for _, a := range seq {
+				a := a
+				addTCP("access-history", g, true, &net.TCPAddr{IP: netIP(r, a), Port: 1 + r.Intn(65535)}, &a)
+			}
+			tcpShared = nil
 		}
 	}
 
